@@ -364,6 +364,11 @@ def _v_ne_var_wrong_side(tree):
     M.replace_expr(g, lambda e: M.src_is(e, "domains[var2.name].discard(val)"), M.expr("domains[var1.name].discard(val)"))
 
 
+def _v_sum_stores_callers_list(tree):
+    g = M.find_func(tree, "Model.sum_le")
+    M.replace_expr(g, lambda e: M.src_is(e, "tuple(variables)"), M.expr("variables"))
+
+
 def _v_alldiff_identity(tree):
     g = M.find_func(tree, "Model._propagate_all_different")
     M.replace_expr(g, lambda e: M.src_is(e, "j != i"), M.expr("other is not var"))
@@ -419,6 +424,7 @@ def _v_alldiff_min_ub(tree):
 
 
 VARIANTS = [
+    M.Variant("sum_le stores the caller's list instead of a snapshot (seed C05-N)", CP, _v_sum_stores_callers_list, "C05-O13"),
     M.Variant("auxiliary variables are built through the model: every solve advances the model's literal counter (original defect)", ENC, _v_aux_through_model, "C05-O10"),
     M.Variant("sum_le over no variables emits nothing (original defect)", ENC, _v_sum_le_empty_unchecked, "C05-O14"),
     M.Variant("a variable with an empty range is skipped by the encoder (original defect)", ENC, _v_empty_range_ignored, "C05-O14"),
